@@ -4,6 +4,7 @@
 From Coq Require Import NArith List Bool.
 From stdpp Require Import gmap.
 From GH Require Import Base.Prelude Model.Store Model.StoreSpec Oracle.StoreCase.
+From GH Require Export Model.StoreFault Oracle.StoreFault.
 Import ListNotations.
 Open Scope N_scope.
 
@@ -70,10 +71,12 @@ Definition ok_par (x : pcase) : bool :=
                     (if (k <=? n) && row_present (pc_probe1 x) c n then 1 else 0)) hs) range
      end.
 
-Inductive case14 := CSeq (x : scase) | CPar (p : pcase).
+(** [CFault]: a history ending in a DeleteRange with failing datastore writes, its retry and a restart (Oracle/StoreFault.v) *)
+Inductive case14 := CSeq (x : scase) | CPar (p : pcase) | CFault (f : fcase).
 
 Definition chk14 (x : case14) : bool * bool * N :=
   match x with
   | CSeq s => chk_store s
   | CPar p => (true, ok_par p, 0)
+  | CFault f => chk_fault f
   end.
